@@ -263,8 +263,15 @@ func c02(c *Ctx) {
 		default:
 			dc.HasPart, dc.Part = true, append(append([]byte(nil), dc.Content...), r.Bytes(1+r.Intn(4))...)
 		}
-		if r.Chance(6) {
+		switch r.Intn(20) {
+		case 0:
 			dc.HasFinal, dc.Final = true, dc.Content
+		case 1: // a corrupt file of exactly the right length already sits at the final path (bit flip)
+			bad := append([]byte(nil), dc.Content...)
+			bad[r.Intn(len(bad))] ^= 0x20
+			dc.HasFinal, dc.Final = true, bad
+		case 2: // … or some other object's bytes, same or different length
+			dc.HasFinal, dc.Final = true, r.Bytes(Pick(r, []int{size, size, size + 1, max(size-1, 1)}))
 		}
 		dc.Attempts = 1 + r.Intn(4)
 		nresp := 1 + r.Intn(6)
@@ -346,7 +353,10 @@ func c02(c *Ctx) {
 		srv.used[oid] = 0
 		srv.mu.Unlock()
 		enc := dc.encode()
-		nontrivial := dc.HasPart && len(dc.Part) > 0
+		nontrivial := (dc.HasPart && len(dc.Part) > 0) || (dc.HasFinal && !bytes.Equal(dc.Final, dc.Content))
+		if dc.HasFinal && !bytes.Equal(dc.Final, dc.Content) {
+			c.R.Count("final.corrupt-preexisting")
+		}
 		for _, rs := range dc.Script {
 			if (rs.Status == 200 || rs.Status == 206) && !bytes.Equal(rs.Body, dc.Content) {
 				nontrivial = true
